@@ -53,7 +53,7 @@ class C15(Engine):
     prop = "C15"
     title = "every simulator survives every opcode from every state, deterministically"
     quick_budget = 45
-    quick_runs = 8000
+    quick_runs = 12000
     thorough_budget = 1200
     variants = ("small",)
     rule = ("run i = batch of 16 cases; case = (one of the 15 simulators, 64-byte code window whose first opcode unit is stratified over "
